@@ -14,3 +14,5 @@ open Dashu.Props.C13Link
 #print axioms mul_normalized_gen
 #print axioms product_low_gen
 #print axioms pow_kernels_all
+#print axioms add_sub_neg_kernels_all
+#print axioms add_in_place_exact
